@@ -335,6 +335,13 @@ class K:
             return self.emit(ind, f"{a[2].id} := {a[0].id}.map rnd")
         raise Unsupported(type(s).__name__ + ": " + ast.dump(s)[:100])
 
+    # hooks: initial value of a predeclared local, by type (subclasses may add array types through INIT or PREDECL_INIT)
+    INIT = {"int": "0", "num": "nat 0", "arrnum": "#[]", "arrint": "#[]"}
+    PREDECL_INIT = INIT
+
+    def _init_table(self):
+        return {**self.INIT, **self.PREDECL_INIT}
+
     def predeclare(self):
         """names first assigned inside a loop / branch are visible afterwards in Python"""
         top = set()
@@ -369,7 +376,7 @@ class K:
                                 self.ty = scratch
                                 try:
                                     ty, _ = self.value_term(v)
-                                    if ty in ("int", "num", "arrnum", "arrint"):
+                                    if ty in self._init_table():
                                         scratch[n.id] = ty
                                 except Unsupported:
                                     pass
@@ -380,7 +387,7 @@ class K:
             hint = self.cfg.get("locals", {}).get(nm) or scratch.get(nm) or "num"
             self.ty[nm] = hint
             self.declared.add(nm)
-            init = {"int": "0", "num": "nat 0", "arrnum": "#[]", "arrint": "#[]"}[hint]
+            init = self._init_table()[hint]
             self.emit(1, f"let mut {nm} : {self.LEAN_TY[hint]} := {init}")
 
     def run(self):
@@ -427,7 +434,7 @@ def write_if_changed(path, text):
 
 
 def module_of(cfg):
-    return "Num" + cfg["name"].capitalize()
+    return cfg.get("module") or "Num" + cfg["name"].capitalize()      # hook: explicit module name
 
 
 def main(kernels=None, tool="py2lean_num"):
